@@ -226,6 +226,13 @@ func (r *Run) Fail(witness, detail string) {
 	}
 }
 
+// Violations returns the number of unlisted violations recorded so far.
+func (r *Run) Violations() int64 {
+	r.mu.Lock()
+	defer r.mu.Unlock()
+	return r.violCount
+}
+
 // Failed reports whether any unlisted violation was recorded so far.
 func (r *Run) Failed() bool {
 	r.mu.Lock()
